@@ -11,6 +11,7 @@
     checksum — silent hops leave it unchanged.
  R5 what the expected checksum covers: calc_udp_checksum builds a UDP datagram from this tracer's addresses, the two *quoted* ports, the quoted
     payload length (capped at the buffer) and the configured pattern, and returns its checksum field; `actual` is the quoted datagram's checksum field.
+    In R3 every trace of a row must give the row's answer, and a row with a previous responding hop must not consult the as-sent checksum at all.
 Not decided: the numerical equality of the recomputed checksum with that of the probe as sent (C13 territory); the behaviour of real NAT devices.
 """
 import itertools
